@@ -179,15 +179,34 @@ def run(case, rec):
     w = walk(tree)
     mapper = None
     style = case.get("style", "newdict" if case.get("newdict") else "inplace")
-    if flav == "obj":
+    if flav == "obj" and style == "refs":
+        # a pair of inverse mappers that writes each object once: the full record at its first occurrence in document
+        # order, {"ref": guid} at every later one (document order = the nesting of the structure, depth first)
+        seen_guids = set()
+
+        def mapper(node, data):
+            g = node.data.guid
+            if g in seen_guids:
+                return {"ref": g}
+            seen_guids.add(g)
+            return {"guid": g, "name": node.data.name, "falsy": isinstance(node.data, FalsyPerson)}
+    elif flav == "obj":
         mapper = {"newdict": ser_mapper_newdict, "inplace": ser_mapper, "guidkey": ser_mapper_guidkey}[style]
 
     # ---- oracle 1: mirror -----------------------------------------------------------
+    exp_seen = set()
+
     def exp_dict(n):
         d = {"data": str(n.data)}
         if n.data_id != hash(n.data):
             d["data_id"] = n.data_id
-        if flav == "obj" and style == "guidkey":
+        if flav == "obj" and style == "refs":
+            if n.data.guid in exp_seen:
+                d = {"ref": n.data.guid}
+            else:
+                exp_seen.add(n.data.guid)
+                d = {"guid": n.data.guid, "name": n.data.name, "falsy": isinstance(n.data, FalsyPerson)}
+        elif flav == "obj" and style == "guidkey":
             d = {"guid": n.data.guid, "name": n.data.name, "falsy": isinstance(n.data, FalsyPerson)}
         elif flav == "obj":
             if style == "newdict":
@@ -228,14 +247,23 @@ def run(case, rec):
     if case.get("json"):
         obj = json.loads(dumped)
         rec.cls("json-roundtrip")
-    dmap0 = deser_mapper_guidkey if style == "guidkey" else deser_mapper
+    dmap0 = deser_mapper_guidkey if style in ("guidkey", "refs") else deser_mapper
     seen_parents = []
+    loaded_objs = {}
 
     def dmap(parent, item):
         # the mapper is handed the (already created) parent node of the item it is asked to convert
-        seen_parents.append((None if parent.is_system_root() else getattr(parent.data, "name", parent.data), item.get("name", item.get("data"))))
-        return dmap0(parent, item)
-    keep = json.loads(dumped) if style != "guidkey" else None  # what the structure looked like before from_dict
+        pname = None if parent.is_system_root() else getattr(parent.data, "name", parent.data)
+        if style == "refs" and "ref" in item:
+            obj_ = loaded_objs[item["ref"]]  # KeyError if a reference is converted before its definition
+            item["data_id"] = obj_.guid
+        else:
+            obj_ = dmap0(parent, item)
+            if style == "refs":
+                loaded_objs[obj_.guid] = obj_
+        seen_parents.append((pname, getattr(obj_, "name", obj_)))
+        return obj_
+    keep = json.loads(dumped) if style not in ("guidkey", "refs") else None  # what the structure looked like before from_dict
     try:
         t2 = Tree.from_dict(obj, mapper=dmap) if flav == "obj" else Tree.from_dict(obj)
     except Exception as e:  # noqa: BLE001
@@ -308,7 +336,7 @@ def hyp_cases(draw, tier):
     if flav == "str" and draw(st.sampled_from([0, 0, 1])):
         case["subclass"] = True
     if flav == "obj":
-        case["style"] = draw(st.sampled_from(["inplace", "newdict", "guidkey"]))
+        case["style"] = draw(st.sampled_from(["inplace", "newdict", "guidkey", "refs"]))
         case["falsy"] = draw(st.booleans())
     elif draw(st.sampled_from([0, 0, 1])):
         # a falsy explicit data_id (0) on one node
